@@ -469,6 +469,36 @@ def rule_ef(ck, R, eng, ps):
                    'first index >= start whose address is outside the area, else the entry count' if bad is None else bad)
 
 
+def link_gate(ck, R, eng, ps):
+    """C04.d (gate): an entry is linked into an area (its `area` / `offset` fields are written) only by, or after a
+    successful, reg_entry_is_in_memory(t, entry) - the one place where base <= address and address + size <= area end
+    are both tested.  A second linking route that tests less (e.g. only the start address) accepts registers that
+    straddle the end of their area."""
+    bad = None
+    nlink = 0
+    for p in ps:
+        gates = [e for e in p.calls('reg_entry_is_in_memory')]
+        for st in p.stores():
+            k = st.name
+            if not (k[0] == 'f' and k[2] in ('area', 'offset') and 'entry' in fmt(k[1])):
+                continue
+            nlink += 1
+            ent = strip_cast(k[1])
+            ok = False
+            for g in gates:
+                if p.effects.index(g) > p.effects.index(st):
+                    continue
+                same = strip_cast(g.args[1]) == ent or L(strip_cast(g.args[1])) == L(ent)
+                passed = any(c[0] == 'cmp' and c[1] == '!=' and strip_cast(c[2]) == g.result and c[3] == C(0) for c in p.cond_terms())
+                if same and passed:
+                    ok = True
+            if not ok:
+                bad = bad or ('%s is written at %s on a path where reg_entry_is_in_memory has not accepted that entry ({%s}): the register is linked '
+                              'without the containment test address + size <= area end' % (fmt(k), st.where(), '; '.join(fmt(c) for c in p.cond_terms()[-3:])[:200]))
+    ck.verdict(bad is None and nlink >= 1, 'C04.d', 'register_init:link-gate', R.where('register_init'),
+               'entries are linked (area/offset written) in register_init only after reg_entry_is_in_memory accepted them' if bad is None and nlink else (bad or 'no link store found in register_init'))
+
+
 def run(ck):
     ck.rule('C04.a', 'flags: every failing return of register_init leaves INITIALISED=0 and DURING_INIT=0, success leaves 1/0 (bit evaluation of the flag expression per path; nothing else assigns the flags)')
     ck.rule('C04.b', 'gate: every public operation tests INITIALISED first and answers UNINITIALISED without touching the table')
@@ -484,6 +514,7 @@ def run(ck):
     scan_rule(R, 'C04.e', 'ra_first_entry_of_next', 'entries', ('v', 'start'))
     ps = R.paths('register_init', 'C04.a', eng)
     if ps is not None:
+        link_gate(ck, R, eng, ps)
         rule_a(ck, R, eng, ps)
         rule_cd(ck, R, eng, ps)
         rule_ef(ck, R, eng, ps)
